@@ -376,7 +376,7 @@ def compare(name, lp, rp, strategy="IterateSATGen"):
 # --------------------------------------------------------------------------- run / replay
 
 def run(ctx, res):
-    nbase = 14 if ctx.quick else 150
+    nbase = 14 if ctx.quick else 110
     rng = ctx.rng
     bases = hand_cases() + [("gen", gen_base(rng)) for _ in range(nbase)]
     res.rule = ("%d generated (design, crossings, cs, rcc, mode, alignment) tuples over 2-3 simple factors (weights 1-2), a transition "
